@@ -54,6 +54,31 @@ PROPS = {
         "rule": "every (planner kind, f32/f64, n, entry point, shape class): data in {n,kn,1,n-1,n+1,2n-1,2n+1,kn-1,kn+1,0}, output off by 1/n, scratch in "
                 "{0,adv-1,adv,adv+1}; the verdict Well/Ill is computed by TLC from the logged lengths; every case is non-trivial",
     },
+    "C10": {
+        "driver": "c10", "level": "model_checking", "mc": [MC_LAYER],
+        "rule": "request histories over five pools of related (length, direction) pairs: all sequences of length 1 and 2, a seeded sample of length 3, random "
+                "sequences of length 4..12; each replayed on two planner objects of every kind x f32/f64; every returned transform checked against the reference DFT "
+                "(log bound), round-tripped with earlier opposite-direction transforms, re-used after the planners are dropped; twin outputs bit-identical "
+                "(hash equality decided by TLC); non-trivial = distinct history prefixes of length >= 2",
+    },
+    "C11": {
+        "driver": "c11", "level": "model_checking", "mc": [MC_LAYER],
+        "rule": "shared instances of every planner kind x f32/f64 over 14 lengths covering every wrapper algorithm: forced two-thread schedules through the "
+                "chunk-boundary hook (context-bounded, <= 2 preemptions) and 16 free-running threads x R rounds with mixed entry points and chunk counts; every "
+                "concurrent output hash must equal the sequential reference recorded in the same trace (decided by TLC); every case is non-trivial",
+    },
+    "C13": {
+        "driver": "c13", "level": "model_checking", "mc": [MC_LAYER],
+        "rule": "harness builds per cargo feature set x run-time capability masks (H1): NewPlanner events for every planner kind x {f32,f64,custom} judged by the "
+                "Dispatch predicates; under each configuration all n = 0..N plus structured lengths are planned (C04), run with guard pages (C03) against the "
+                "reference DFT with the log bound (C01/C02) and impulse phases; " + NT_PLAN,
+        "variants": [
+            {"name": "default", "masks": [15, 7, 1, 0]},
+            {"name": "none", "features": [], "masks": [15, 0], "masks_quick": [15]},
+            {"name": "sse", "features": ["sse"], "masks": [15, 1, 0], "thorough_only": True},
+            {"name": "avx", "features": ["avx"], "masks": [15, 7, 1], "thorough_only": True},
+        ],
+    },
     "C14": {
         "driver": "c14", "level": "model_checking", "mc": [MC_LAYER],
         "rule": "element types: GF(p) (exact; two-pass constant identification; TLC recomputes the DFT itself for n <= 40 in a field p < 2^20), double-double, "
